@@ -157,3 +157,52 @@ def build(d):
     if t == "QualifiedName":
         return U.UAQualifiedName(namespace_index=d["ns"], name=d["name"])
     raise ValueError(t)
+
+
+# ------------------------------------------------------------------------------------------------
+# describe(): opcua_tools object -> description (inverse of build, for comparisons)
+# ------------------------------------------------------------------------------------------------
+def describe(o):
+    import pandas as pd
+    import opcua_tools.ua_data_types as U
+    if o is None:
+        return {"t": "PyNone"}
+    if o is pd.NA or (isinstance(o, float) and o != o):
+        return None
+    na = lambda x: None if (x is pd.NA or x is None) else x   # noqa: E731
+    cls = type(o).__name__
+    if isinstance(o, U.UAEnumeration):
+        return {"t": "Enumeration", "v": na(o.value), "string": o.string, "name": o.name}
+    if cls == "UABoolean":
+        return {"t": "Boolean", "v": na(o.value)}
+    if cls[2:] in INT_RANGES:
+        return {"t": cls[2:], "v": na(o.value)}
+    if cls in ("UAFloat", "UADouble"):
+        return {"t": cls[2:], "v": None if o.value is pd.NA else repr(o.value)}
+    if cls in ("UAString", "UAGuid"):
+        return {"t": cls[2:], "v": na(o.value)}
+    if cls == "UADateTime":
+        d = o.value
+        off = d.utcoffset()
+        tz = "naive" if off is None else ("utc" if off.total_seconds() == 0 else str(int(off.total_seconds() // 60)))
+        return {"t": "DateTime", "v": d.strftime("%Y-%m-%dT%H:%M:%S.%f"), "tz": tz}
+    if cls == "UAByteString":
+        return {"t": "ByteString", "v": None if o.value is pd.NA else base64.b64encode(o.value).decode()}
+    if cls == "UANodeId":
+        return {"t": "NodeId", "v": [o.namespace, o.nodeid_type.value, o.value]}
+    if cls == "UALocalizedText":
+        return {"t": "LocalizedText", "text": na(o.text), "locale": na(o.locale)}
+    if cls == "UAEURange":
+        return {"t": "EURange", "low": repr(o.ua_range.low), "high": repr(o.ua_range.high)}
+    if cls == "UAEngineeringUnits":
+        i = o.ua_eu_information
+        lt = lambda x: {"text": na(x.text), "locale": na(x.locale)}   # noqa: E731
+        return {"t": "EngineeringUnits", "uri": i.namespace_uri, "unit_id": i.unit_id, "display": lt(i.display_name),
+                "description": lt(i.description)}
+    if cls == "UAXMLElement":
+        return {"t": "XmlElement", "v": o.value}
+    if cls == "UAListOf":
+        return {"t": "ListOf", "typename": o.typename, "items": [describe(x) for x in o.value]}
+    if cls == "UAExtensionObject":
+        return {"t": "ExtensionObject", "type": describe(o.type_nodeid)["v"], "body": describe(o.body)}
+    return {"t": "Other:" + cls, "repr": repr(o)}
